@@ -1,11 +1,11 @@
 package cache
 
 import (
+	"io"
 	"io/ioutil"
 	"os"
 	"path/filepath"
 
-	"github.com/mattetti/filebuffer"
 	"github.com/pojntfx/stfs/pkg/config"
 	"github.com/spf13/afero"
 )
@@ -23,21 +23,103 @@ func (f fileWithSize) Size() (int64, error) {
 	return info.Size(), nil
 }
 
-type filebufferWithSize struct {
-	*filebuffer.Buffer
+// memoryBuffer is a random-access in-memory write cache: a byte slice with a cursor and the semantics of a file
+// (writes inside the data overwrite in place, writes past the end fill the gap with zeros, truncation can grow and shrink)
+type memoryBuffer struct {
+	data   []byte
+	pos    int64
+	closed bool
 }
 
-func (f filebufferWithSize) Size() (int64, error) {
-	return int64(f.Buff.Len()), nil
+func (f *memoryBuffer) Read(p []byte) (int, error) {
+	if f.closed {
+		return 0, os.ErrClosed
+	}
+
+	if len(p) == 0 {
+		return 0, nil
+	}
+
+	if f.pos >= int64(len(f.data)) {
+		return 0, io.EOF
+	}
+
+	n := copy(p, f.data[f.pos:])
+	f.pos += int64(n)
+
+	return n, nil
 }
 
-func (f filebufferWithSize) Sync() error {
+func (f *memoryBuffer) Write(p []byte) (int, error) {
+	if f.closed {
+		return 0, os.ErrClosed
+	}
+
+	if len(p) == 0 {
+		return 0, nil
+	}
+
+	if end := f.pos + int64(len(p)); end > int64(len(f.data)) {
+		f.data = append(f.data, make([]byte, end-int64(len(f.data)))...)
+	}
+
+	n := copy(f.data[f.pos:], p)
+	f.pos += int64(n)
+
+	return n, nil
+}
+
+func (f *memoryBuffer) Seek(offset int64, whence int) (int64, error) {
+	if f.closed {
+		return 0, os.ErrClosed
+	}
+
+	abs := int64(0)
+	switch whence {
+	case io.SeekStart:
+		abs = offset
+	case io.SeekCurrent:
+		abs = f.pos + offset
+	case io.SeekEnd:
+		abs = int64(len(f.data)) + offset
+	default:
+		return 0, os.ErrInvalid
+	}
+
+	if abs < 0 {
+		return 0, os.ErrInvalid
+	}
+
+	f.pos = abs
+
+	return abs, nil
+}
+
+func (f *memoryBuffer) Close() error {
+	f.closed = true
+
+	return nil
+}
+
+func (f *memoryBuffer) Size() (int64, error) {
+	return int64(len(f.data)), nil
+}
+
+func (f *memoryBuffer) Sync() error {
 	// No need to sync a in-memory buffer
 	return nil
 }
 
-func (f filebufferWithSize) Truncate(size int64) error {
-	f.Buff.Truncate(int(size))
+func (f *memoryBuffer) Truncate(size int64) error {
+	if size < 0 {
+		return os.ErrInvalid
+	}
+
+	if size <= int64(len(f.data)) {
+		f.data = f.data[:size]
+	} else {
+		f.data = append(f.data, make([]byte, size-int64(len(f.data)))...)
+	}
 
 	return nil
 }
@@ -48,7 +130,7 @@ func NewCacheWrite(
 ) (cache WriteCache, cleanup func() error, err error) {
 	switch cacheType {
 	case config.WriteCacheTypeMemory:
-		buff := &filebufferWithSize{filebuffer.New([]byte{})}
+		buff := &memoryBuffer{}
 
 		return buff, func() error {
 			buff = nil
